@@ -107,6 +107,7 @@ def run(rep: Report, tier: str):
         "source, the provenance of each written value (import-time capture, fresh closure, value saved in the context "
         "manager), post-dominance of the restoring stores in __exit__, and a package-wide scan for other writers."
     )
+    rep.rule("C12.sequence-worlds", "over every operation sequence: flagged pickles refused while armed, exits restore the entry state, removal restores the originals", 1)
     rep.rule("C12.remove-complete", "remove_hook restores every binding any arming operation may change, from import-time captures", 4)
     rep.rule("C12.exit-unconditional", "__exit__ restores on all paths and never swallows the exception", 2)
     rep.rule("C12.ctx-restores-what-it-clobbers", "the context manager restores what its own __enter__ rebinds", 1)
@@ -341,6 +342,10 @@ def run(rep: Report, tier: str):
             n_other += 1
             rep.bad("C12.single-owner", f.qualname, f"foreign-writer:{b}", f"`{src(st)}` rebinds {b} outside hook.py/context.py: the lifecycle operations neither know nor restore it", f.file, st.lineno)
     rep.ok("C12.single-owner", "fickling/*", f"{len(repo.functions)} functions scanned; writers of pickle entry points outside hook.py/context.py: {n_other} (import_hook.py builds a replacement module object, not a rebinding)", "")
+    # interpreted last: the structural rules above stand on their own if a sequence cannot be interpreted
+    from ..envworlds import C12_KEYS, report_sequence_worlds
+
+    report_sequence_worlds(repo, rep, "C12.sequence-worlds", tier, C12_KEYS, nested=False)
 
 
 def _pickle_twin_fact() -> bool:
